@@ -75,6 +75,23 @@ fn generic_by_name(name: &str) -> Value {
         "f64inf" => both(f64::INFINITY),
         "f32neginf" => both(f32::NEG_INFINITY),
         "&f64nan" => { let x = f64::NAN; both(&x) }
+        // every class of finite float: subnormals of both signs, the smallest normal, the largest finite, both zeros
+        "f64sub1" => both(5e-324f64),
+        "f64sub2" => both(1e-310f64),
+        "f64subneg" => both(-3.7e-315f64),
+        "f64subtop" => both(f64::from_bits(0x000f_ffff_ffff_ffff)),
+        "f64minpos" => both(f64::MIN_POSITIVE),
+        "f64max" => both(f64::MAX),
+        "f64min" => both(f64::MIN),
+        "f64negzero" => both(-0.0f64),
+        "f64eps" => both(f64::EPSILON),
+        "f32sub" => both(1e-40f32),
+        "f32minpos" => both(f32::MIN_POSITIVE),
+        "f32max" => both(f32::MAX),
+        "f32negzero" => both(-0.0f32),
+        "&f64sub" => { let x = 1e-310f64; both(&x) }
+        "Vec<f64sub>" => both(vec![5e-324f64, -1e-310]),
+        "Option<f64sub>" => both(Some(1e-310f64)),
         "Vec<f64>" => both(vec![0.5, f64::INFINITY]),
         "(BTreeMap<i8,i8>,i8)" => both(([(1i8, 1i8)].iter().cloned().collect::<BTreeMap<i8, i8>>(), 1i8)),
         "Vec<u128>" => both(vec![1u128]),
